@@ -13,6 +13,7 @@ import (
 	"path/filepath"
 	"regexp"
 	"sort"
+	"strconv"
 	"strings"
 
 	"golang.org/x/tools/go/packages"
@@ -571,19 +572,41 @@ func (e *Engine) ordinals(c *Ctx, fd *ast.FuncDecl) {
 	}
 	c.ordDone[fd] = true
 	nloop, nret := 0, 0
+	headers := map[int]string{}
+	hdrText := func(from, to token.Pos) string {
+		f := e.fset.File(from)
+		if f == nil {
+			return ""
+		}
+		data, err := os.ReadFile(f.Name())
+		if err != nil {
+			return ""
+		}
+		a, b := f.Offset(from), f.Offset(to)
+		if a < 0 || b > len(data) || a > b {
+			return ""
+		}
+		return strings.Join(strings.Fields(string(data[a:b])), " ")
+	}
+	nbranch := map[token.Token]int{}
 	ncall := map[string]int{}
 	ast.Inspect(fd.Body, func(n ast.Node) bool {
 		switch x := n.(type) {
 		case *ast.ForStmt:
 			nloop++
 			c.loopOrd[x] = nloop
+			headers[nloop] = hdrText(x.Pos(), x.Body.Lbrace)
 		case *ast.RangeStmt:
 			nloop++
 			c.loopOrd[x] = nloop
+			headers[nloop] = hdrText(x.Pos(), x.Body.Lbrace)
 			if id, ok := x.Key.(*ast.Ident); !ok || id.Name == "_" {
 				v := e.rangeIdxVar(x, nil)
 				c.idxVars[fmt.Sprintf("idx%d", nloop)] = v
 			}
+		case *ast.BranchStmt:
+			nbranch[x.Tok]++
+			c.branchOrd[x] = nbranch[x.Tok]
 		case *ast.ReturnStmt:
 			nret++
 			c.retOrd[x] = nret
@@ -594,6 +617,41 @@ func (e *Engine) ordinals(c *Ctx, fd *ast.FuncDecl) {
 		}
 		return true
 	})
+	// resolve loop specs keyed by header text
+	for _, hdr := range sortedKeys(c.con.LoopsByText) {
+		var found []int
+		text, nth := hdr, 0
+		if i := strings.LastIndex(hdr, "#"); i >= 0 {
+			if n, err := strconv.Atoi(hdr[i+1:]); err == nil {
+				text, nth = hdr[:i], n
+			}
+		}
+		for ord := 1; ord <= nloop; ord++ {
+			if headers[ord] == text {
+				found = append(found, ord)
+			}
+		}
+		if len(found) == 0 {
+			for ord := 1; ord <= nloop; ord++ {
+				if strings.HasPrefix(headers[ord], text) {
+					found = append(found, ord)
+				}
+			}
+		}
+		if nth > 0 && nth <= len(found) {
+			found = []int{found[nth-1]}
+		}
+		if len(found) != 1 {
+			c.bindingErrors = append(c.bindingErrors, fmt.Sprintf("loop %q matches %d loops in %s", hdr, len(found), fd.Name.Name))
+			continue
+		}
+		if c.con.Loops[found[0]] != nil {
+			c.bindingErrors = append(c.bindingErrors, fmt.Sprintf("loop %q is also specified by ordinal %d", hdr, found[0]))
+			continue
+		}
+		c.con.Loops[found[0]] = c.con.LoopsByText[hdr]
+		c.loopNames[found[0]] = hdr
+	}
 }
 
 // ---------------------------------------------------------------------------------------------
@@ -604,7 +662,7 @@ func (e *Engine) newCtx(k *Contract, fi *funcInfo) *Ctx {
 		retOrd: map[*ast.ReturnStmt]int{}, strlits: map[string]string{}, calleesUsed: map[string]bool{}, typeIDs: map[string]types.Type{},
 		ifacePreds: map[string]types.Type{}, distinctRefs: map[string]bool{}, sorts: map[string]string{}, idxVars: map[string]*types.Var{},
 		usedSpec: map[string]bool{}, ordDone: map[*ast.FuncDecl]bool{}, byteMems: map[string]bool{}, byteArrs: map[string]bool{},
-		frameWrites: map[string]bool{}, freshRefs: map[string]bool{}, variantAt: map[int]string{}}
+		frameWrites: map[string]bool{}, freshRefs: map[string]bool{}, variantAt: map[int]string{}, loopHeads: map[int]*State{}, branchOrd: map[*ast.BranchStmt]int{}, loopNames: map[int]string{}, loopIdxVar: map[int]*types.Var{}, allocSeq: map[string]int{}}
 	if fi != nil {
 		c.pkg, c.fn, c.decl = fi.pkg, fi.fn, fi.decl
 	}
@@ -646,6 +704,7 @@ func (e *Engine) verifyFunc(key string) (c *Ctx, err error) {
 	if fi.decl.Recv != nil && len(fi.decl.Recv.List) > 0 && len(fi.decl.Recv.List[0].Names) > 0 {
 		if rv, ok := info.Defs[fi.decl.Recv.List[0].Names[0]].(*types.Var); ok {
 			val := c.freshValue(s, rv.Name(), rv.Type())
+			c.assumeTyped(s, val, rv.Type())
 			if _, isPtr := rv.Type().Underlying().(*types.Pointer); isPtr {
 				s.assume(lt("0", asInt(val)))
 				c.note("method receivers are non-nil")
@@ -657,6 +716,7 @@ func (e *Engine) verifyFunc(key string) (c *Ctx, err error) {
 		for _, n := range fld.Names {
 			if pv, ok := info.Defs[n].(*types.Var); ok {
 				val := c.freshValue(s, pv.Name(), pv.Type())
+				c.assumeTyped(s, val, pv.Type())
 				if sv, ok := val.(SliceV); ok {
 					// the position of a slice inside its backing array is not observable: view it from its own start
 					s.assume(eq(sv.Off, "0"))
@@ -731,6 +791,11 @@ func (e *Engine) verifyFunc(key string) (c *Ctx, err error) {
 			return c, fmt.Errorf("%s: break/continue escaped the function body", key)
 		}
 	}
+	for _, label := range sortedKeys(k.Ats) {
+		if !c.atHit[label] {
+			c.bindingErrors = append(c.bindingErrors, fmt.Sprintf("at-clause label %q matches no program point of %s", label, key))
+		}
+	}
 	c.frameCheck(fi.decl.Body.Rbrace)
 	// vacuity: some normal exit must be reachable under the contracts (unless the function never returns)
 	if len(retStates) > 0 {
@@ -744,12 +809,51 @@ func (e *Engine) verifyFunc(key string) (c *Ctx, err error) {
 
 // atClauses processes `at <label> assert e` clauses.
 func (c *Ctx) atClauses(s *State, label string, pos token.Pos) {
+	if c.atHit == nil {
+		c.atHit = map[string]bool{}
+	}
+	c.atHit[label] = true
 	for _, a := range c.con.Ats[label] {
 		switch a.Kind {
 		case "assert":
 			g := c.cevalBool(a.Expr, s, nil, pos)
 			c.oblige(s, "assert@"+strings.ReplaceAll(label, " ", ""), a.Text, pos, g, a.Tags)
 			s.assume(g)
+		case "ghost":
+			// ghost name == expr | ghost name[i] == expr | ghost name[i][j] == expr   (assignment to ghost state)
+			be, ok := a.Expr.(*ast.BinaryExpr)
+			if !ok || be.Op != token.EQL {
+				c.bindingErrors = append(c.bindingErrors, "ghost clause must have the form `lhs == expr`")
+				continue
+			}
+			v := asInt(c.ceval(be.Y, s, nil, pos))
+			var idxs []string
+			lhs := be.X
+			for {
+				ie, isIdx := lhs.(*ast.IndexExpr)
+				if !isIdx {
+					break
+				}
+				idxs = append([]string{asInt(c.ceval(ie.Index, s, nil, pos))}, idxs...)
+				lhs = ie.X
+			}
+			name, isId := lhs.(*ast.Ident)
+			if !isId || len(idxs) > 2 {
+				c.bindingErrors = append(c.bindingErrors, "ghost clause: bad left-hand side")
+				continue
+			}
+			key := "X." + name.Name
+			switch len(idxs) {
+			case 0:
+				c.heapSet(s, key, sInt, v)
+			case 1:
+				arr := c.heapGet(s, key, sA1)
+				c.heapSet(s, key, sA1, store(arr, idxs[0], v))
+			case 2:
+				arr := c.heapGet(s, key, sA2)
+				c.heapSet(s, key, sA2, store(arr, idxs[0], store(sel(arr, idxs[0]), idxs[1], v)))
+			}
+			c.frameWrites[key] = true
 		default:
 			c.bindingErrors = append(c.bindingErrors, "unsupported at-clause kind "+a.Kind)
 		}
